@@ -107,4 +107,419 @@ theorem getHash_congr (h h' : List (Bytes × Bytes)) (a b : Bytes)
     getHash h' [a, b] = getHash h [a, b] := by
   simp only [getHash, ha, hb]
 
+/-! ### invariant of the maintenance operations -/
+
+/-- `_runid` fields store their own id -/
+def RunidOwn (t : Target) (n : Bytes) : Prop :=
+  ∀ db, ∀ e ∈ t.cps db n, e.kind = .runid → e.val = e.rid
+
+/-- id `A` alone carries the position in database `d` -/
+def Carrier (A : Bytes) (t : Target) (n : Bytes) (d : Nat) (X : Int) : Prop :=
+  offOf [A] (t.cps d n) = X ∧ ridOf [A] (t.cps d n) ≠ qmark
+
+structure Inv (id1 id2 A : Bytes) (t : Target) (n r : Bytes) (d : Nat) (X : Int) : Prop where
+  hash : getHash t.hash [id1, id2] = some (n, r)
+  holds : Holds [id1, id2] t n d X
+  carrier : Carrier A t n d X
+  own : RunidOwn t n
+
+/-- requests that cannot hurt the position held under key `n` in database `d` carried by id `A` -/
+def SafeReq (id1 id2 A n : Bytes) (d : Nat) : Req → Prop
+  | .hdelCp db name ks => name ≠ n ∨ ∃ ρ, ks = fourKeys ρ ∧ (db ≠ d ∨ ρ ≠ A)
+  | .hdelHash rid => rid ≠ id1 ∧ rid ≠ id2
+  | _ => False
+
+theorem offSel_iff (ids : List Bytes) (e : Entry) :
+    offSel ids e = true ↔ matchId ids e.rid = true ∧ e.kind = .offset := by
+  simp [offSel]
+
+theorem ridSel_iff (ids : List Bytes) (e : Entry) :
+    ridSel ids e = true ↔ matchId ids e.rid = true ∧ e.kind = .runid := by
+  simp [ridSel]
+
+theorem contains_fourKeys (ρ : Bytes) (x : Entry) :
+    (fourKeys ρ).contains x.key = true ↔ x.rid = ρ ∧ x.kind ≠ .other := by
+  obtain ⟨rid, kind, val⟩ := x
+  rw [List.contains_iff_mem]
+  cases kind <;> simp [fourKeys, Entry.key]
+
+/-- the filter predicate of `hdelMany _ (fourKeys ρ)` -/
+def keepNot (ρ : Bytes) (x : Entry) : Bool := decide ¬ ((fourKeys ρ).contains x.key = true)
+
+theorem hdelMany_fourKeys (fs : Cp) (ρ : Bytes) : hdelMany fs (fourKeys ρ) = fs.filter (keepNot ρ) := rfl
+
+theorem keepNot_true (ρ : Bytes) (x : Entry) : keepNot ρ x = true ↔ ¬ (x.rid = ρ ∧ x.kind ≠ .other) := by
+  simp only [keepNot, decide_eq_true_eq, contains_fourKeys]
+
+theorem keepNot_false (ρ : Bytes) (x : Entry) : keepNot ρ x = false ↔ (x.rid = ρ ∧ x.kind ≠ .other) := by
+  rw [← Bool.not_eq_true, keepNot_true]; exact Classical.not_not
+
+/-- deleting the four fields of an id other than `A` does not change what `A` alone reads -/
+theorem offOf_one_hdel_other (A ρ : Bytes) (h : ρ ≠ A) (fs : Cp) :
+    offOf [A] (hdelMany fs (fourKeys ρ)) = offOf [A] fs := by
+  rw [hdelMany_fourKeys]
+  apply offOf_filter
+  intro e _
+  refine ⟨fun _ => rfl, fun hf => ?_⟩
+  have := (keepNot_false ρ e).mp hf
+  rw [← Bool.not_eq_true, offSel_iff, matchId_one]
+  intro hc; exact h (this.1 ▸ hc.1)
+
+theorem ridOf_one_hdel_other (A ρ : Bytes) (h : ρ ≠ A) (fs : Cp) :
+    ridOf [A] (hdelMany fs (fourKeys ρ)) = ridOf [A] fs := by
+  rw [hdelMany_fourKeys]
+  apply ridOf_filter
+  intro e _
+  refine ⟨fun _ => rfl, fun hf => ?_⟩
+  have := (keepNot_false ρ e).mp hf
+  rw [← Bool.not_eq_true, ridSel_iff, matchId_one]
+  intro hc; exact h (this.1 ▸ hc.1)
+
+/-- deleting the four fields of `B` from a hash read with `[A,B]` leaves what `A` alone reads -/
+theorem offOf_pair_hdel (id1 id2 A B : Bytes) (hAB : A ≠ B)
+    (hpair : (A = id1 ∧ B = id2) ∨ (A = id2 ∧ B = id1)) (fs : Cp) :
+    offOf [id1, id2] (hdelMany fs (fourKeys B)) = offOf [A] fs := by
+  rw [hdelMany_fourKeys]
+  apply offOf_filter
+  intro e _
+  constructor
+  · intro hk
+    have hk' := (keepNot_true B e).mp hk
+    rw [Bool.eq_iff_iff, offSel_iff, offSel_iff, matchId_pair, matchId_one]
+    constructor
+    · rintro ⟨hm, hko⟩
+      refine ⟨?_, hko⟩
+      rcases hpair with ⟨rfl, rfl⟩ | ⟨rfl, rfl⟩
+      · rcases hm with h | h; exact h; exact absurd ⟨h, by rw [hko]; decide⟩ hk'
+      · rcases hm with h | h; exact absurd ⟨h, by rw [hko]; decide⟩ hk'; exact h
+    · rintro ⟨hm, hko⟩
+      refine ⟨?_, hko⟩
+      rcases hpair with ⟨rfl, rfl⟩ | ⟨rfl, rfl⟩
+      · exact Or.inl hm
+      · exact Or.inr hm
+  · intro hf
+    have := (keepNot_false B e).mp hf
+    rw [← Bool.not_eq_true, offSel_iff, matchId_one]
+    intro hc; exact hAB (hc.1 ▸ this.1)
+
+theorem ridOf_pair_hdel (id1 id2 A B : Bytes) (hAB : A ≠ B)
+    (hpair : (A = id1 ∧ B = id2) ∨ (A = id2 ∧ B = id1)) (fs : Cp) :
+    ridOf [id1, id2] (hdelMany fs (fourKeys B)) = ridOf [A] fs := by
+  rw [hdelMany_fourKeys]
+  apply ridOf_filter
+  intro e _
+  constructor
+  · intro hk
+    have hk' := (keepNot_true B e).mp hk
+    rw [Bool.eq_iff_iff, ridSel_iff, ridSel_iff, matchId_pair, matchId_one]
+    constructor
+    · rintro ⟨hm, hko⟩
+      refine ⟨?_, hko⟩
+      rcases hpair with ⟨rfl, rfl⟩ | ⟨rfl, rfl⟩
+      · rcases hm with h | h; exact h; exact absurd ⟨h, by rw [hko]; decide⟩ hk'
+      · rcases hm with h | h; exact absurd ⟨h, by rw [hko]; decide⟩ hk'; exact h
+    · rintro ⟨hm, hko⟩
+      refine ⟨?_, hko⟩
+      rcases hpair with ⟨rfl, rfl⟩ | ⟨rfl, rfl⟩
+      · exact Or.inl hm
+      · exact Or.inr hm
+  · intro hf
+    have := (keepNot_false B e).mp hf
+    rw [← Bool.not_eq_true, ridSel_iff, matchId_one]
+    intro hc; exact hAB (hc.1 ▸ this.1)
+
+/-- deleting the four fields of an id outside the pair changes nothing that is read -/
+theorem offOf_hdel_nonmatching (ids : List Bytes) (ρ : Bytes) (h : matchId ids ρ = false) (fs : Cp) :
+    offOf ids (hdelMany fs (fourKeys ρ)) = offOf ids fs := by
+  rw [hdelMany_fourKeys]
+  apply offOf_filter
+  intro e _
+  refine ⟨fun _ => rfl, fun hf => ?_⟩
+  have := (keepNot_false ρ e).mp hf
+  rw [← Bool.not_eq_true, offSel_iff, this.1, h]; simp
+
+theorem ridOf_hdel_nonmatching (ids : List Bytes) (ρ : Bytes) (h : matchId ids ρ = false) (fs : Cp) :
+    ridOf ids (hdelMany fs (fourKeys ρ)) = ridOf ids fs := by
+  rw [hdelMany_fourKeys]
+  apply ridOf_filter
+  intro e _
+  refine ⟨fun _ => rfl, fun hf => ?_⟩
+  have := (keepNot_false ρ e).mp hf
+  rw [← Bool.not_eq_true, ridSel_iff, this.1, h]; simp
+
+theorem OffBelow.filter {ids : List Bytes} {fs : Cp} {X : Int} (h : OffBelow ids fs X)
+    (p : Entry → Bool) : OffBelow ids (fs.filter p) X :=
+  fun x hx => h x (List.mem_filter.mp hx).1
+
+theorem Holds.update {ids : List Bytes} {t : Target} {n : Bytes} {d : Nat} {X : Int}
+    (h : Holds ids t n d X) (t' : Target) (db0 : Nat)
+    (hother : ∀ db, db ≠ db0 → t'.cps db n = t.cps db n)
+    (hp : Parses ids (t'.cps db0 n))
+    (hd : db0 = d → offOf ids (t'.cps db0 n) = X ∧ ridOf ids (t'.cps db0 n) ≠ qmark)
+    (hnd : db0 ≠ d → OffBelow ids (t'.cps db0 n) X) : Holds ids t' n d X := by
+  refine ⟨h.nonneg, ?_, ?_, ?_, ?_⟩
+  · intro db
+    by_cases hdb : db = db0
+    · subst hdb; exact hp
+    · rw [hother db hdb]; exact h.parses db
+  · by_cases hdb : d = db0
+    · subst hdb; exact (hd rfl).1
+    · rw [hother d hdb]; exact h.off
+  · by_cases hdb : d = db0
+    · subst hdb; exact (hd rfl).2
+    · rw [hother d hdb]; exact h.rid
+  · intro db hne
+    by_cases hdb : db = db0
+    · subst hdb; exact hnd hne
+    · rw [hother db hdb]; exact h.dom db hne
+
+theorem Holds.congr {ids : List Bytes} {t t' : Target} {n : Bytes} {d : Nat} {X : Int}
+    (h : Holds ids t n d X) (hc : ∀ db, t'.cps db n = t.cps db n) : Holds ids t' n d X := by
+  refine ⟨h.nonneg, ?_, ?_, ?_, ?_⟩
+  · intro db; rw [hc]; exact h.parses db
+  · rw [hc]; exact h.off
+  · rw [hc]; exact h.rid
+  · intro db hne; rw [hc]; exact h.dom db hne
+
+theorem Inv.congr {id1 id2 A n r : Bytes} {d : Nat} {X : Int} {t t' : Target}
+    (hi : Inv id1 id2 A t n r d X) (hh : getHash t'.hash [id1, id2] = getHash t.hash [id1, id2])
+    (hc : ∀ db, t'.cps db n = t.cps db n) : Inv id1 id2 A t' n r d X := by
+  refine ⟨hh ▸ hi.hash, hi.holds.congr hc, ?_, ?_⟩
+  · unfold Carrier; rw [hc]; exact hi.carrier
+  · intro db e he; rw [hc] at he; exact hi.own db e he
+
+theorem applyReq_hdelCp_cps (t : Target) (db : Nat) (name : Bytes) (ks : List FKey) (db' : Nat)
+    (n' : Bytes) : (applyReq t (.hdelCp db name ks)).cps db' n'
+      = if db' = db ∧ n' = name then hdelMany (t.cps db name) ks else t.cps db' n' := rfl
+
+theorem applyReq_hsetCp_cps (t : Target) (db : Nat) (name : Bytes) (es : List Entry) (db' : Nat)
+    (n' : Bytes) : (applyReq t (.hsetCp db name es)).cps db' n'
+      = if db' = db ∧ n' = name then hsetMany (t.cps db name) es else t.cps db' n' := rfl
+
+theorem inv_applyReq {id1 id2 A n r : Bytes} {d : Nat} {X : Int} (hne : id1 ≠ id2)
+    (hA : A = id1 ∨ A = id2) {t : Target} (hi : Inv id1 id2 A t n r d X) (req : Req)
+    (hs : SafeReq id1 id2 A n d req) : Inv id1 id2 A (applyReq t req) n r d X := by
+  cases req with
+  | hsetCp db name es => exact absurd hs (by simp [SafeReq])
+  | delKeys db names => exact absurd hs (by simp [SafeReq])
+  | hsetHash rid name => exact absurd hs (by simp [SafeReq])
+  | hsetnxHash rid name => exact absurd hs (by simp [SafeReq])
+  | hdelHash rid =>
+    have hs' : rid ≠ id1 ∧ rid ≠ id2 := hs
+    apply hi.congr
+    · apply getHash_congr
+      · exact hlookup_hashDel_ne _ _ _ (Ne.symm hs'.1)
+      · exact hlookup_hashDel_ne _ _ _ (Ne.symm hs'.2)
+    · intro db; rfl
+  | hdelCp db name ks =>
+    have hs' : name ≠ n ∨ ∃ ρ, ks = fourKeys ρ ∧ (db ≠ d ∨ ρ ≠ A) := hs
+    by_cases hname : name = n
+    · subst hname
+      rcases hs' with h | ⟨ρ, rfl, hsafe⟩
+      · exact absurd rfl h
+      · have hother : ∀ db', db' ≠ db →
+            (applyReq t (.hdelCp db name (fourKeys ρ))).cps db' name = t.cps db' name := by
+          intro db' hd'; rw [applyReq_hdelCp_cps]; simp [hd']
+        have hnew : (applyReq t (.hdelCp db name (fourKeys ρ))).cps db name
+            = hdelMany (t.cps db name) (fourKeys ρ) := by
+          rw [applyReq_hdelCp_cps]; simp
+        refine ⟨hi.hash, ?_, ?_, ?_⟩
+        · apply hi.holds.update _ db hother
+          · rw [hnew, hdelMany_fourKeys]; exact (hi.holds.parses db).filter _
+          · intro hdb
+            subst hdb
+            have hρ : ρ ≠ A := by rcases hsafe with h | h; exact absurd rfl h; exact h
+            rw [hnew]
+            by_cases hm : matchId [id1, id2] ρ = true
+            · have hpair : (A = id1 ∧ ρ = id2) ∨ (A = id2 ∧ ρ = id1) := by
+                rcases (matchId_pair id1 id2 ρ).mp hm with h1 | h1 <;> rcases hA with h2 | h2
+                · exact absurd (h1.trans h2.symm) hρ
+                · exact Or.inr ⟨h2, h1⟩
+                · exact Or.inl ⟨h2, h1⟩
+                · exact absurd (h1.trans h2.symm) hρ
+              rw [offOf_pair_hdel id1 id2 A ρ (Ne.symm hρ) hpair,
+                  ridOf_pair_hdel id1 id2 A ρ (Ne.symm hρ) hpair]
+              exact hi.carrier
+            · have hm' : matchId [id1, id2] ρ = false := by simpa using hm
+              rw [offOf_hdel_nonmatching _ _ hm', ridOf_hdel_nonmatching _ _ hm']
+              exact ⟨hi.holds.off, hi.holds.rid⟩
+          · intro hdb
+            rw [hnew, hdelMany_fourKeys]; exact (hi.holds.dom db hdb).filter _
+        · unfold Carrier
+          by_cases hdb : d = db
+          · subst hdb
+            have hρ : ρ ≠ A := by rcases hsafe with h | h; exact absurd rfl h; exact h
+            rw [hnew, offOf_one_hdel_other A ρ hρ, ridOf_one_hdel_other A ρ hρ]
+            exact hi.carrier
+          · rw [hother d hdb]; exact hi.carrier
+        · intro db' e he
+          by_cases hdb : db' = db
+          · subst hdb
+            rw [hnew, hdelMany_fourKeys] at he
+            exact hi.own db' e (List.mem_filter.mp he).1
+          · rw [hother db' hdb] at he; exact hi.own db' e he
+    · apply hi.congr (t' := applyReq t (.hdelCp db name ks)) rfl
+      intro db'
+      rw [applyReq_hdelCp_cps]
+      have : ¬ (db' = db ∧ n = name) := fun h => hname h.2.symm
+      simp [this]
+
+theorem inv_applyAll {id1 id2 A n r : Bytes} {d : Nat} {X : Int} (hne : id1 ≠ id2)
+    (hA : A = id1 ∨ A = id2) (rs : List Req) :
+    ∀ {t : Target}, Inv id1 id2 A t n r d X → (∀ q ∈ rs, SafeReq id1 id2 A n d q) →
+      Inv id1 id2 A (applyAll t rs) n r d X := by
+  induction rs with
+  | nil => intro t hi _; exact hi
+  | cons q rs ih =>
+    intro t hi hs
+    simp only [applyAll, List.foldl_cons]
+    exact ih (inv_applyReq hne hA hi q (hs q (List.mem_cons_self ..)))
+      (fun q' hq' => hs q' (List.mem_cons_of_mem _ hq'))
+
+theorem applyAll_append (t : Target) (a b : List Req) :
+    applyAll t (a ++ b) = applyAll (applyAll t a) b := by
+  simp [applyAll, List.foldl_append]
+
+/-- the position a start reads in a state satisfying the invariant -/
+theorem Inv.startPoint {id1 id2 A n r : Bytes} {d : Nat} {X : Int} {t : Target}
+    (hi : Inv id1 id2 A t n r d X) (hn0 : n ≠ []) (ver : Bytes) (order : List Nat) (hd : d ∈ order) :
+    startPoint ver [id1, id2] order t = some (some (X, d)) :=
+  startPoint_of_holds ver hi.hash hn0 hi.holds order hd
+
+/-! ### DelStaleCheckpoint / gcStaleCp -/
+
+theorem Parses.sub {ids ids' : List Bytes} {fs : Cp} (h : Parses ids fs)
+    (hsub : ∀ x, matchId ids' x = true → matchId ids x = true) : Parses ids' fs :=
+  fun e he hm hk => h e he (hsub _ hm) hk
+
+theorem OffBelow.sub {ids ids' : List Bytes} {fs : Cp} {X : Int} (h : OffBelow ids fs X)
+    (hsub : ∀ x, matchId ids' x = true → matchId ids x = true) : OffBelow ids' fs X := by
+  intro x hx hs v hv
+  apply h x hx _ v hv
+  rw [offSel_iff] at hs ⊢
+  exact ⟨hsub _ hs.1, hs.2⟩
+
+theorem matchId_one_sub (id1 id2 A : Bytes) (hA : A = id1 ∨ A = id2) :
+    ∀ x, matchId [A] x = true → matchId [id1, id2] x = true := by
+  intro x hx
+  rw [matchId_one] at hx; rw [matchId_pair]
+  rcases hA with h | h
+  · left; rw [hx, h]
+  · right; rw [hx, h]
+
+/-- every entry the scan collected is what `fetchCheckpoint` read in that database -/
+theorem staleScan_found (t : Target) (name rid : Bytes) (order : List Nat) :
+    ∀ (s0 s : StaleScan), (∀ p ∈ s0.found, fetch [rid] (t.cps p.1 name) = some p.2) →
+      order.foldl (staleScanStep t name rid) (some s0) = some s →
+      ∀ p ∈ s.found, fetch [rid] (t.cps p.1 name) = some p.2 := by
+  induction order with
+  | nil => intro s0 s h0 h; simp only [List.foldl_nil, Option.some.injEq] at h; subst h; exact h0
+  | cons db rest ih =>
+    intro s0 s h0 h
+    simp only [List.foldl_cons] at h
+    cases hf : fetch [rid] (t.cps db name) with
+    | none =>
+      have hnone : ∀ l : List Nat, l.foldl (staleScanStep t name rid) none = none := by
+        intro l; induction l with
+        | nil => rfl
+        | cons _ _ ihl => simpa [staleScanStep] using ihl
+      simp only [staleScanStep, hf] at h
+      rw [hnone] at h; exact absurd h (by simp)
+    | some cpi =>
+      simp only [staleScanStep, hf] at h
+      refine ih _ s ?_ h
+      intro p hp
+      split at hp
+      · rcases List.mem_append.mp hp with hp | hp
+        · split at hp <;> exact h0 p hp
+        · have : p = (db, cpi) := by simpa using hp
+          subst this; exact hf
+      · split at hp <;> exact h0 p hp
+
+/-- a run id read through own `_runid` fields is the id or "?" -/
+theorem foldl_ridStep_one (A : Bytes) (fs : Cp)
+    (hown : ∀ e ∈ fs, e.kind = .runid → e.val = e.rid) :
+    ∀ r, (r = A ∨ r = qmark) → (fs.foldl (ridStep [A]) r = A ∨ fs.foldl (ridStep [A]) r = qmark) := by
+  induction fs with
+  | nil => intro r h; exact h
+  | cons y fs ih =>
+    intro r h
+    simp only [List.foldl_cons]
+    apply ih (fun e he => hown e (List.mem_cons_of_mem _ he))
+    unfold ridStep
+    split
+    · rename_i hy
+      rw [ridSel_iff, matchId_one] at hy
+      left; rw [hown y (List.mem_cons_self ..) hy.2, hy.1]
+    · exact h
+
+private structure SInv (d : Nat) (X : Int) (s : StaleScan) : Prop where
+  le : s.newest ≤ X
+  eq : s.newest = X → s.newestDb = d
+  found : ∀ p ∈ s.found, p.1 = d → s.newest = X
+
+private theorem staleScan_newest_aux {id1 id2 A n r : Bytes} {d : Nat} {X : Int}
+    (hA : A = id1 ∨ A = id2) {t : Target} (hi : Inv id1 id2 A t n r d X) (order : List Nat) :
+    ∀ (s0 s : StaleScan), SInv d X s0 →
+      order.foldl (staleScanStep t n A) (some s0) = some s → SInv d X s := by
+  induction order with
+  | nil => intro s0 s h0 h; simp only [List.foldl_nil, Option.some.injEq] at h; subst h; exact h0
+  | cons db rest ih =>
+    intro s0 s h0 h
+    simp only [List.foldl_cons] at h
+    have hsub := matchId_one_sub id1 id2 A hA
+    obtain ⟨cpi, hf, hoff, _⟩ := fetch_spec [A] (t.cps db n) ((hi.holds.parses db).sub hsub)
+    simp only [staleScanStep, hf] at h
+    refine ih _ s ?_ h
+    by_cases hdb : db = d
+    · subst hdb
+      have hX : cpi.offset = X := by rw [hoff]; exact hi.carrier.1
+      constructor
+      · split <;> split <;> simp_all <;> omega
+      · intro _
+        split
+        · split <;> simp_all
+        · split
+          · rename_i h1 h2; simp only at *
+            have := h0.le; have := h0.eq (by omega); simp_all
+          · rename_i h1 h2
+            have := h0.le; exact h0.eq (by omega)
+      · intro p hp _
+        split
+        · split <;> simp_all
+        · split
+          · rename_i h1 h2; have := h0.le; simp only; omega
+          · rename_i h1 h2; have := h0.le; omega
+    · have hlt : cpi.offset < X := by
+        rw [hoff]; exact offOf_lt_of_below ((hi.holds.dom db hdb).sub hsub) hi.holds.nonneg
+      have hnf : ∀ p ∈ s0.found, p.1 = d → s0.newest = X := h0.found
+      constructor
+      · split <;> split <;> simp only <;> first | omega | exact h0.le
+      · split
+        · split <;> simp only <;> intro h' <;> omega
+        · split <;> simp only <;> exact h0.eq
+      · intro p hp hpd
+        split at hp
+        · rcases List.mem_append.mp hp with hp | hp
+          · split at hp
+            · rename_i h2
+              have := hnf p hp hpd; simp only at h2; omega
+            · split <;> simp only <;> first | exact hnf p hp hpd | (have := hnf p hp hpd; omega)
+          · have : p = (db, cpi) := by simpa using hp
+            subst this; exact absurd hpd hdb
+        · split at hp
+          · rename_i h2
+            have := hnf p hp hpd; simp only at h2; omega
+          · split <;> simp only <;> first | exact hnf p hp hpd | (have := hnf p hp hpd; omega)
+
+theorem staleScan_newest {id1 id2 A n r : Bytes} {d : Nat} {X : Int}
+    (hA : A = id1 ∨ A = id2) {t : Target} (hi : Inv id1 id2 A t n r d X) (order : List Nat)
+    (s : StaleScan) (h : staleScan t n A order = some s) :
+    ∀ p ∈ s.found, p.1 = d → s.newestDb = d := by
+  have h0 : SInv d X {} := ⟨by have := hi.holds.nonneg; simp; omega,
+    by intro h; have := hi.holds.nonneg; simp at h; omega, by simp⟩
+  have := staleScan_newest_aux hA hi order {} s h0 h
+  intro p hp hpd
+  exact this.eq (this.found p hp hpd)
+
 end GunYu.Checkpoint
